@@ -121,10 +121,109 @@ async def run_schedule(seed: int):
     return problems
 
 
+CYCLE_SRC = """
+from __future__ import annotations
+from typing import Annotated
+from workflows.resource import Resource
+
+def make_x(y: Annotated[object, Resource(make_y)]):
+    return object()
+
+def make_y(x: Annotated[object, Resource(make_x)]):
+    return object()
+"""
+
+
+async def sequential_cases():
+    """graph shapes and multi-step sequences that need no interleaving (run once per invocation)"""
+    problems = []
+    # (1) a genuine cycle whose descriptors are fresh objects at every level (deferred annotations: typing evaluates
+    #     `Resource(make_y)` anew on each inspection): it must be REPORTED, as a cycle error
+    ns = {"__name__": "c22_cycle_module"}
+    exec(compile(CYCLE_SRC, "<c22_cycle_module>", "exec"), ns)
+    mgr = ResourceManager()
+    try:
+        await asyncio.wait_for(mgr.get(Resource(ns["make_x"])), 5)
+        problems.append("a genuine dependency cycle (make_x -> make_y -> make_x) returned a value")
+    except ValueError as e:
+        if "ircular" not in str(e):
+            problems.append(f"a genuine cycle raised ValueError without naming a cycle: {e}")
+    except BaseException as e:  # noqa
+        problems.append(f"a genuine dependency cycle was not reported as such: {type(e).__name__}: {str(e)[:80]}")
+    if mgr._resolving or mgr._resolution_depth or mgr._resolution_cache:
+        problems.append(f"bookkeeping left behind by a reported cycle: chain={mgr._resolving} depth={mgr._resolution_depth}")
+    # (2) descriptors are shared by all instances of a workflow class, managers are per instance: a cached resource is
+    #     created once PER MANAGER, also when it is reached only as a dependency of another resource
+    made = []
+
+    def make_db():
+        made.append("db")
+        return Obj("db")
+
+    r_db = Resource(make_db, cache=True)
+
+    def make_repo(db: Annotated[Obj, r_db]):
+        return Obj("repo", (db,))
+
+    r_repo = Resource(make_repo, cache=False)
+    seen = []
+    for _ in range(3):
+        m = ResourceManager()
+        wf = SimpleNamespace(_resource_manager=m)
+        cfg = SimpleNamespace(event_name="ev", context_parameter=None,
+                              resources=[ResourceDefinition(name="repo", resource=r_repo),
+                                         ResourceDefinition(name="db", resource=r_db)])
+        kw = (await partial(lambda **kw: None, cfg, object(), None, wf)).keywords
+        if kw["repo"].parts[0] is not kw["db"]:
+            problems.append("a step was handed a cached resource that differs from the one its other resource was built on")
+        seen.append(kw["db"])
+        cfg2 = SimpleNamespace(event_name="ev", context_parameter=None,
+                               resources=[ResourceDefinition(name="repo", resource=r_repo)])
+        kw2 = (await partial(lambda **kw: None, cfg2, object(), None, wf)).keywords
+        if kw2["repo"] is kw["repo"]:
+            problems.append("a non-cached resource was reused by a later step invocation")
+        if kw2["repo"].parts[0] is not kw["db"]:
+            problems.append("a later step's non-cached resource was not built on the manager's cached resource")
+    if len({id(o) for o in seen}) != 3 or len(made) != 3:
+        problems.append(f"cached resources are not per manager: {len(made)} factory calls, objects {seen} for 3 managers")
+    # (3) a failing factory half-way through a nested graph, then the same graph again on the same manager
+    state = {"fail": True}
+
+    def leaf():
+        if state["fail"]:
+            state["fail"] = False
+            raise RuntimeError("leaf failed (injected)")
+        return Obj("leaf")
+
+    r_leaf = Resource(leaf, cache=True)
+
+    def mid(x: Annotated[Obj, r_leaf]):
+        return Obj("mid", (x,))
+
+    r_mid = Resource(mid, cache=True)
+    m = ResourceManager()
+    try:
+        await m.get(r_mid)
+        problems.append("the injected factory failure was swallowed")
+    except RuntimeError:
+        pass
+    try:
+        v = await m.get(r_mid)
+        if v.parts[0] is not await m.get(r_leaf):
+            problems.append("after a failed resolution the cached dependency and the injected one differ")
+    except Exception as e:  # noqa
+        problems.append(f"a resolution after a failed one failed: {type(e).__name__}: {e}")
+    return problems
+
+
 def main():
     n = int(sys.argv[1]) if len(sys.argv) > 1 else 300
     seed = int(sys.argv[2]) if len(sys.argv) > 2 else 1
     bad = 0
+    seq = asyncio.run(sequential_cases())
+    if seq:
+        bad += 1
+        print("sequential cases: " + " | ".join(seq[:3]))
     for k in range(n):
         problems = asyncio.run(run_schedule(seed * 100003 + k))
         if problems:
